@@ -264,7 +264,7 @@ _patch('C04', 'level_text', 'run_fun / run_method fix that boundary as the frame
        'run_fun / run_method fix that boundary as the frame count before the callee frame; Vm::runtime_error builds the error through the same hooks (D20 fixed). The compiler half (compilerd / catchd units, stub-and-log extraction of the real Compiler::try_ / catch / return_ / break_ / continue_ / emit_return / loop_scope): a try block pushes one handler and pops it on its normal exit, every catch clause is compiled at the depth outside the try, and return / break / continue emit one PopHandler for every try block they leave (D25 fixed) and none for those they stay in.')
 _patch('C04', 'level_note', 'Not decided: PopHandler emission on every exit path (Compiler), ', 'Not decided: that every statement is compiled at the try depth of its enclosing try blocks is the composition of the compilerd contracts over the AST (each step checked, the induction over the tree not), ')
 _patch('C02', 'level_text', 'What is NOT decided is the larger half of the property:',
-       'Front-end pieces (stub-and-log extraction): the run-time capture table (captures unit: Captures::get_capture / get_capture_value / set_capture_value read and write the cell itself, bit for bit, D19 fixed); Resolver::for_ declares the loop variable inside the per-iteration scope so every iteration gets a fresh cell (resolverd, D24 fixed); Compiler::catch declares the error variable in the catch scope (catchd). What is NOT decided is the larger half of the property:')
+       'Front-end pieces (stub-and-log extraction): the run-time capture table (captures unit: Captures::get_capture / get_capture_value / set_capture_value read and write the cell itself, bit for bit, D19 fixed); Resolver::for_ resolves the iterable BEFORE the loop variables ($iter and the item variable, ONE variable for the whole loop) are declared, as the compiler evaluates it before declaring them (resolverd, D24 fixed); Compiler::catch declares the error variable in the catch scope (catchd). What is NOT decided is the larger half of the property:')
 
 # ---- gcglue unit (C05 / C20 / C09) -------------------------------------------------------------------------------------------------------
 _patch('C05', 'level_text', 'Bounded (Kani): the real dispatch per kind',
@@ -311,3 +311,4 @@ _patch('C06', 'level_text', 'among them both paths of IterNext / IterCurrent', '
 _patch('C03', 'level_note', 'Not decided: field numbering by the compiler vs run-time Field order,', 'Field numbering: the initialiser is compiled before the Field instructions and the methods after them (classc unit: Compiler::class), the Field instructions are emitted in the order find_known_field numbers the fields (fieldsc unit), op_field / add_field hand out slots in arrival order (ops, klass). Not decided:')
 _patch('C02', 'level_text', 'Compiler::add_capture returns the position', 'Compiler::function (funcc unit) hands the captures the child compiler collected to the Closure instruction as one CaptureIndex operand each, in the child order, which is the order op_closure reads them in. Compiler::add_capture returns the position')
 _patch('C06', 'level_note', 'A-shape', 'A-shape (discharged at the source for while / if: compilerd unit, Compiler::while_ and Compiler::if_ emit every label they jump to exactly once, exit jumps forward, Loop backward)')
+_patch('C01', 'level_text', 'Unbounded proof', 'The compile scheme of the control flow and operators (compilerd / forc / funcc units, stub-and-log extraction of the real Compiler::binary / unary / ternary / if_ / while_ / for_ / function): operands in source order with the instruction of their operator, and / or jumping forward over the right operand, exactly one ternary or if branch, while and for loops with the condition (the iterator step) at the start label, a forward exit and a backward Loop, an expression-bodied function returning its value. Unbounded proof')
